@@ -723,8 +723,8 @@ func (e *e3) lenViaCallers(s ssa.Value, at *ssa.BasicBlock) (int64, string, bool
 	var prm *ssa.Parameter
 	idx := -1
 	for i, q := range fn.Params {
-		pk := "p:" + q.Name()
-		if strings.Contains(key, pk+".") {
+		pk := exprKey(q)
+		if pk != "" && strings.Contains(key, pk+".") {
 			prm, idx = q, i
 		}
 	}
@@ -752,7 +752,7 @@ func (e *e3) lenViaCallers(s ssa.Value, at *ssa.BasicBlock) (int64, string, bool
 		if ak == "" {
 			return 0, "", false
 		}
-		tkey := strings.Replace(key, "p:"+prm.Name(), ak, 1)
+		tkey := strings.Replace(key, exprKey(prm), ak, 1)
 		lb := e.lenLowerBoundByKey(tkey, site.Block())
 		if best < 0 || lb < best {
 			best = lb
